@@ -1,21 +1,146 @@
 /-
-  C08 — Fnat and clash count equal their definitions.  Property theorems only (helper lemmas in Proofs/Fnat*.lean).
+  C08 — Fnat and clash count equal their definitions; Fnat is a fraction in [0,1].  Property theorems only
+  (helper lemmas in Proofs/Fnat*.lean, built on cluster C's closed forms of the contact routines).
+
+  Model: `Model.Fnat.fnatFast` (reference table × raw decoy lines), `Model.Fnat.fnatSql` (two tables, `_fix_chainID` included),
+  `Model.Fnat.clashes`.  Spec: `Spec.C08.fnat`, `Spec.C08.clashes` (residue = (chain, number); hydrogen = name starts with H).
+  `Model.Fnat.orZeroDiv` turns the Spec's "undefined" (no reference contact) into the `ZeroDivisionError` both routines raise.
+
+  Side conditions the proofs force, all decidable and reported per case by the drivers:
+    * `IsTwoChain ref X Y`               the reference is a two-chain complex (chains X < Y);
+    * `IsTwoChain dec X Y`  (SQL route)  the decoy has the same two chain identifiers (`_fix_chainID` renames by rank);
+    * `NamesConsistent (ref ++ dec)`     a residue (chain, number) carries one residue name throughout both files
+                                         (the code's residue keys contain the name, the property's residues do not);
+    * `RawAgrees lines dec` (fast route) the raw-column reader sees the rows of the decoy table (false e.g. for a chain given
+                                         by a multi-character segID).
 -/
-import PdbVerif.Spec.C08
-import PdbVerif.Model.Fnat
+import PdbVerif.Proofs.FnatDomain
+
+set_option linter.unusedSectionVars false
+set_option linter.unusedVariables false
 
 namespace Props.C08
-open Py Model
+open Py Model Model.Fnat
+open Spec.C08 (IsTwoChain NamesConsistent contacts inContact resOf)
+open Proofs.Fnat (RawAgrees NoBoundaryPair)
+
+/-- **Fast route = definition.**  For every reference/decoy pair in the domain and every cutoff, `compute_fnat_fast` returns
+    the definition's value (six decimals), and raises `ZeroDivisionError` exactly when there is no reference contact. -/
+theorem fnat_fast_eq_def {ref dec : List Atom} {lines : List Str} {X Y : Str} (c : Rat)
+    (href : IsTwoChain ref X Y) (hnames : NamesConsistent (ref ++ dec)) (hraw : RawAgrees lines dec) :
+    fnatFast ref lines c = orZeroDiv (Spec.C08.fnat c ref dec) :=
+  Proofs.Fnat.fnatFast_eq c (Proofs.Fnat.getChains_of_twoChain href) hnames hraw
+
+/-- **SQL route = definition**, `fix_chainID=True` included. -/
+theorem fnat_sql_eq_def {ref dec : List Atom} {X Y : Str} (c : Rat)
+    (href : IsTwoChain ref X Y) (hdec : IsTwoChain dec X Y) (hnames : NamesConsistent (ref ++ dec)) :
+    fnatSql ref dec c = orZeroDiv (Spec.C08.fnat c ref dec) :=
+  Proofs.Fnat.fnatSql_eq c (Proofs.Fnat.getChains_of_twoChain href) (Proofs.Fnat.getChains_of_twoChain hdec) hnames
+
+/-- **The two routes agree** wherever both theorems apply. -/
+theorem fast_eq_sql_fnat {ref dec : List Atom} {lines : List Str} {X Y : Str} (c : Rat)
+    (href : IsTwoChain ref X Y) (hdec : IsTwoChain dec X Y) (hnames : NamesConsistent (ref ++ dec)) (hraw : RawAgrees lines dec) :
+    fnatFast ref lines c = fnatSql ref dec c := by
+  rw [fnat_fast_eq_def c href hnames hraw, fnat_sql_eq_def c href hdec hnames]
+
+/-- **Fnat ∈ [0,1]** — for EVERY input on which a route returns a value (no side condition at all: the counters of the
+    code satisfy `nCommon ≤ nTotal` by construction). -/
+theorem fnat_in_unit_interval :
+    (∀ (ref : List Atom) (lines : List Str) (c v : Rat), fnatFast ref lines c = .ok v → 0 ≤ v ∧ v ≤ 1) ∧
+    (∀ (ref dec : List Atom) (c v : Rat), fnatSql ref dec c = .ok v → 0 ≤ v ∧ v ≤ 1) :=
+  ⟨fun _ _ _ _ h => Proofs.Fnat.fnatFast_unit h, fun _ _ _ _ h => Proofs.Fnat.fnatSql_unit h⟩
+
+/-- the definition itself is a fraction in [0,1] -/
+theorem spec_fnat_in_unit_interval (c : Rat) (ref dec : List Atom) (v : Rat) (h : Spec.C08.fnat c ref dec = some v) :
+    0 ≤ v ∧ v ≤ 1 := by
+  have := Proofs.Fnat.spec_fnat_eq c ref dec
+  rw [h] at this
+  refine Proofs.Fnat.ratio_unit this.symm ?_
+  unfold Spec.C08.preserved
+  exact List.length_filter_le _ _
+
+/-- **Fnat = 1 when the decoy is the reference** (both routes), as soon as there is a reference contact. -/
+theorem fnat_self_one {ref : List Atom} {lines : List Str} {X Y : Str} (c : Rat)
+    (href : IsTwoChain ref X Y) (hnames : NamesConsistent ref) (hraw : RawAgrees lines ref) (hc : contacts c ref ≠ []) :
+    fnatFast ref lines c = .ok 1 ∧ fnatSql ref ref c = .ok 1 := by
+  have hn2 := Proofs.Fnat.namesConsistent_self hnames
+  rw [fnat_fast_eq_def c href hn2 hraw, fnat_sql_eq_def c href href hn2, Proofs.Fnat.spec_fnat_self c ref hc]
+  exact ⟨rfl, rfl⟩
+
+/-- **A contact whose residue is absent from the decoy is not preserved** (it stays in the denominator: `contacts c ref` does
+    not depend on the decoy). -/
+theorem absent_residue_not_preserved (c : Rat) (dec : List Atom) (r₁ r₂ : Spec.C08.Res)
+    (h : (∀ a ∈ dec, resOf a ≠ r₁) ∨ (∀ a ∈ dec, resOf a ≠ r₂)) : inContact c dec r₁ r₂ = false := by
+  cases hc : inContact c dec r₁ r₂ with
+  | false => rfl
+  | true =>
+    obtain ⟨_, a, ha, b, hb, hra, hrb, _⟩ := Proofs.Fnat.inContact_iff.1 hc
+    rcases h with h | h
+    · exact absurd hra (h a ha)
+    · exact absurd hrb (h b hb)
+
+/-- **Clash count = definition (partial).**  On a two-chain structure, called with its two chains, `compute_clashes` returns
+    the number of inter-chain pairs of non-hydrogen atoms closer than 3 Å — PROVIDED no such pair is at a distance of exactly
+    3 Å.  (Full property: without that proviso.  It is false then: the code tests `≤ 3.0`, see the counterexample below.) -/
+theorem clashes_eq_def_partial {t : List Atom} {X Y : Str} (ht : IsTwoChain t X Y) (hb : NoBoundaryPair t) :
+    clashes t X Y = .ok (Spec.C08.clashes t) :=
+  Proofs.Fnat.clashes_eq (Proofs.Fnat.getChains_of_twoChain ht) hb
+
+def exAtom (serial : Int) (name : String) (chain : String) (resName : String) (resSeq : Int) (x y z : Rat) : Atom :=
+  { serial := serial, name := name.toList, altLoc := [], resName := resName.toList, chainID := chain.toList, resSeq := resSeq,
+    iCode := [], x := x, y := y, z := z, occ := 1, temp := 0, element := "C".toList, model := 0 }
 
 /-- two heavy atoms of different chains at a distance of exactly 3 Å (offset (1,2,2)) -/
-def boundaryPair : List Atom :=
-  [ { serial := 1, name := "CA".toList, altLoc := [], resName := "ALA".toList, chainID := "A".toList, resSeq := 1, iCode := [],
-      x := 0, y := 0, z := 0, occ := 1, temp := 0, element := "C".toList, model := 0 },
-    { serial := 2, name := "CA".toList, altLoc := [], resName := "GLY".toList, chainID := "B".toList, resSeq := 1, iCode := [],
-      x := 1, y := 2, z := 2, occ := 1, temp := 0, element := "C".toList, model := 0 } ]
+def boundaryPair : List Atom := [exAtom 1 "CA" "A" "ALA" 1 0 0 0, exAtom 2 "CA" "B" "GLY" 1 1 2 2]
 
+open Proofs.Fnat in
 /-- **C08-F2.**  On a pair of heavy atoms at a distance of exactly 3 Å the code counts one clash, the definition
     ("closer than 3 Å") none. -/
-theorem tmp_placeholder : True := trivial
+theorem clashes_boundary_counterexample :
+    clashes boundaryPair "A".toList "B".toList = .ok 1 ∧ Spec.C08.clashes boundaryPair = 0 ∧
+      IsTwoChain boundaryPair "A".toList "B".toList := by
+  refine ⟨by decide +kernel, by decide +kernel, ⟨by decide +kernel, by decide +kernel,
+    ⟨exAtom 1 "CA" "A" "ALA" 1 0 0 0, by decide +kernel, rfl⟩, ⟨exAtom 2 "CA" "B" "GLY" 1 1 2 2, by decide +kernel, rfl⟩⟩⟩
+
+/-! ### non-vacuity: a concrete reference/decoy pair satisfying every hypothesis above
+
+  reference: chain A residues 1 (N, CA, H) and 2 (CA); chain B residues 7 (CA, CB) and 8 (CA).  Contacts at 5 Å: (A1,B7) — CA–CA at
+  distance exactly 5 (offset (3,4,0)) — and (A2,B8).  decoy: residue B8 is missing and B7's CA moved away, its CB moved in. -/
+
+def exRef : List Atom :=
+  [exAtom 1 "N" "A" "ALA" 1 0 0 0, exAtom 2 "CA" "A" "ALA" 1 1 0 0, exAtom 3 "H" "A" "ALA" 1 1 1 0, exAtom 4 "CA" "A" "GLY" 2 20 0 0,
+   exAtom 5 "CA" "B" "SER" 7 4 4 0, exAtom 6 "CB" "B" "SER" 7 9 9 9, exAtom 7 "CA" "B" "LEU" 8 20 3 0]
+
+def exDecLines : List Str := [
+  "ATOM      1  N   ALA A   1       0.000   0.000   0.000  1.00  0.00           C  \n".toList,
+  "ATOM      2  CA  ALA A   1       1.000   0.000   0.000  1.00  0.00           C  \n".toList,
+  "REMARK a record the readers skip\n".toList,
+  "ATOM      4  CA  GLY A   2      20.000   0.000   0.000  1.00  0.00           C  \n".toList,
+  "ATOM      5  CA  SER B   7      14.000   4.000   0.000  1.00  0.00           C  \n".toList,
+  "ATOM      6  CB  SER B   7       2.500   2.000   1.000  1.00  0.00           C  \n".toList]
+
+/-- the decoy table -/
+def exDec : List Atom :=
+  [exAtom 1 "N" "A" "ALA" 1 0 0 0, exAtom 2 "CA" "A" "ALA" 1 1 0 0, exAtom 4 "CA" "A" "GLY" 2 20 0 0,
+   exAtom 5 "CA" "B" "SER" 7 14 4 0, exAtom 6 "CB" "B" "SER" 7 (5/2) 2 1]
+
+open Proofs.Fnat in
+/-- it is what the parser makes of `exDecLines`, and what the raw-column reader of the fast route sees -/
+example : tableOfLines exDecLines = .ok exDec ∧ RawAgrees exDecLines exDec := by
+  constructor
+  · decide +kernel
+  · unfold RawAgrees; decide +kernel
+open Proofs.Fnat in
+example : IsTwoChain exRef "A".toList "B".toList ∧ IsTwoChain exDec "A".toList "B".toList :=
+  ⟨⟨by decide +kernel, by decide +kernel, ⟨exAtom 1 "N" "A" "ALA" 1 0 0 0, by decide +kernel, rfl⟩, ⟨exAtom 5 "CA" "B" "SER" 7 4 4 0, by decide +kernel, rfl⟩⟩,
+   Proofs.Fnat.twoChain_of_getChains (by decide +kernel)⟩
+example : NamesConsistent (exRef ++ exDec) := by decide +kernel
+example : contacts 5 exRef = [(("A".toList, 1), ("B".toList, 7)), (("A".toList, 2), ("B".toList, 8))] := by decide +kernel
+/-- one of the two reference contacts is preserved (through another atom pair), the other lost its residue: Fnat = 0.5 -/
+example : Spec.C08.fnat 5 exRef exDec = some (1/2) := by decide +kernel
+open Proofs.Fnat in
+example : fnatFast exRef exDecLines 5 = .ok (1/2) ∧ fnatSql exRef exDec 5 = .ok (1/2) := by
+  constructor <;> decide +kernel
+example : NoBoundaryPair exDec := by unfold NoBoundaryPair; decide +kernel
 
 end Props.C08
